@@ -200,68 +200,91 @@ func cmdCheck(args []string) int {
 	if *workers == 0 {
 		*workers = runtime.NumCPU()
 	}
-	eng, err := loadEngine(repoDir, verifDir, pc)
-	if err != nil {
-		fmt.Printf("INCONCLUSIVE property=%s reason=load: %v\n", prop, err)
-		writeEvidence(verifDir, prop, tier, seed, nil, pc, nil, time.Since(start), []string{"load: " + err.Error()}, 0, nil)
-		return 2
-	}
-	eng.tier = tier
-	// the loaded program is a large, static heap: collect rarely
-	debug.SetGCPercent(1000)
-	debug.SetMemoryLimit(40 << 30)
-	if tier == "thorough" {
-		eng.assertMs = 60000
-		eng.branchMs = 5000
-		eng.branchSlowMs = 60000
-		eng.crossCheck = true
-	}
 	known := loadKnown(verifDir)
 	var results []*HarnessResult
 	var inconcl []string
 	var violations []*Violation
 	var knownHits []string
-	for _, h := range pc.Harnesses {
-		if !tierMatch(h, tier) || (*only != "" && h.Name != *only) {
-			continue
+	var eng *Engine
+	cfgs := []*PropCfg{pc}
+	for _, a := range pc.Also {
+		apc, err := loadPropCfg(filepath.Join(verifDir, "harness", a+".json"))
+		if err != nil {
+			fmt.Printf("INCONCLUSIVE property=%s reason=config: %v\n", prop, err)
+			return 2
 		}
-		hr := eng.runHarness(h, *workers)
-		results = append(results, hr)
-		if *verbose {
-			fmt.Printf("harness %-28s paths=%d ends=%v asserts=%d(+%d trivial) viol=%d wall=%.1fs\n", h.Name, hr.Paths, hr.Ends, hr.Asserts, hr.TrivAsserts, len(hr.Violations), hr.Wall.Seconds())
-			for m, n := range hr.EndMsgs {
-				fmt.Printf("    end: %s (x%d)\n", m, n)
-			}
+		cfgs = append(cfgs, apc)
+		pc.Harnesses = append(pc.Harnesses, apc.Harnesses...)
+	}
+	hcfg := map[string]*PropCfg{}
+	for ci, cpc := range cfgs {
+		hs := cpc.Harnesses
+		if ci == 0 {
+			hs = hs[:len(hs)-countAlso(cfgs)]
 		}
-		for _, m := range hr.Inconcl {
-			inconcl = append(inconcl, h.Name+": "+m)
+		sub := *cpc
+		sub.Harnesses = hs
+		for _, h := range hs {
+			hcfg[h.Name] = &sub
 		}
-		// dedupe violations by label
-		seen := map[string]bool{}
-		for _, v := range hr.Violations {
-			key := v.Kind + "|" + v.Label
-			isKnown := false
-			for i := range known.Findings {
-				k := &known.Findings[i]
-				if k.Property == prop && k.matches(v) {
-					isKnown = true
-					msg := fmt.Sprintf("KNOWN-FINDING: property=%s %s", prop, k.What)
-					dup := false
-					for _, x := range knownHits {
-						if x == msg {
-							dup = true
-						}
-					}
-					if !dup {
-						knownHits = append(knownHits, msg)
-					}
-				}
-			}
-			if isKnown || seen[key] {
+		eng, err = loadEngine(repoDir, verifDir, &sub)
+		if err != nil {
+			fmt.Printf("INCONCLUSIVE property=%s reason=load: %v\n", prop, err)
+			writeEvidence(verifDir, prop, tier, seed, nil, pc, nil, time.Since(start), []string{"load: " + err.Error()}, 0, nil)
+			return 2
+		}
+		eng.tier = tier
+		// the loaded program is a large, static heap: collect rarely
+		debug.SetGCPercent(1000)
+		debug.SetMemoryLimit(40 << 30)
+		if tier == "thorough" {
+			eng.assertMs = 60000
+			eng.branchMs = 5000
+			eng.branchSlowMs = 60000
+			eng.crossCheck = true
+		}
+		for _, h := range hs {
+			if !tierMatch(h, tier) || (*only != "" && h.Name != *only) {
 				continue
 			}
-			seen[key] = true
-			violations = append(violations, v)
+			hr := eng.runHarness(h, *workers)
+			results = append(results, hr)
+			if *verbose {
+				fmt.Printf("harness %-28s paths=%d ends=%v asserts=%d(+%d trivial) viol=%d wall=%.1fs\n", h.Name, hr.Paths, hr.Ends, hr.Asserts, hr.TrivAsserts, len(hr.Violations), hr.Wall.Seconds())
+				for m, n := range hr.EndMsgs {
+					fmt.Printf("    end: %s (x%d)\n", m, n)
+				}
+			}
+			for _, m := range hr.Inconcl {
+				inconcl = append(inconcl, h.Name+": "+m)
+			}
+			// dedupe violations by label
+			seen := map[string]bool{}
+			for _, v := range hr.Violations {
+				key := v.Kind + "|" + v.Label
+				isKnown := false
+				for i := range known.Findings {
+					k := &known.Findings[i]
+					if k.Property == prop && k.matches(v) {
+						isKnown = true
+						msg := fmt.Sprintf("KNOWN-FINDING: property=%s %s", prop, k.What)
+						dup := false
+						for _, x := range knownHits {
+							if x == msg {
+								dup = true
+							}
+						}
+						if !dup {
+							knownHits = append(knownHits, msg)
+						}
+					}
+				}
+				if isKnown || seen[key] {
+					continue
+				}
+				seen[key] = true
+				violations = append(violations, v)
+			}
 		}
 	}
 	for _, m := range knownHits {
@@ -289,7 +312,11 @@ func cmdCheck(args []string) int {
 		status := "not-run"
 		if !*noReplay && h != nil && !h.NoReplay {
 			nReplays++
-			status = nativeReplay(repoDir, verifDir, pc, h, path, tier)
+			rpc := pc
+			if x, ok := hcfg[h.Name]; ok {
+				rpc = x
+			}
+			status = nativeReplay(repoDir, verifDir, rpc, h, path, tier)
 		} else if h != nil && h.NoReplay {
 			status = "not-applicable: " + h.ReplayNote
 		}
@@ -427,6 +454,14 @@ func writeEvidence(verifDir, prop, tier string, seed int, eng *Engine, pc *PropC
 	os.MkdirAll(filepath.Join(verifDir, "evidence"), 0o755)
 	b, _ := json.MarshalIndent(ev, "", " ")
 	_ = os.WriteFile(filepath.Join(verifDir, "evidence", prop+".json"), b, 0o644)
+}
+
+func countAlso(cfgs []*PropCfg) int {
+	n := 0
+	for _, c := range cfgs[1:] {
+		n += len(c.Harnesses)
+	}
+	return n
 }
 
 func mergedParams(h *HarnessCfg, tier string) map[string]int {
